@@ -12,14 +12,21 @@ import (
 func New() *Handler {
 	return &Handler{
 		m:        new(sync.Mutex),
-		requests: map[int64]chan event{},
+		requests: map[int64]client{},
 	}
 }
 
 type Handler struct {
 	m        *sync.Mutex
 	counter  int64
-	requests map[int64]chan event
+	requests map[int64]client
+}
+
+type client struct {
+	events chan event
+	// done is closed when the client's handler returns, releasing
+	// any deliveries that are still pending.
+	done chan struct{}
 }
 
 type event struct {
@@ -31,14 +38,17 @@ type event struct {
 func (s *Handler) Send(eventType string, data string) {
 	s.m.Lock()
 	defer s.m.Unlock()
-	for _, f := range s.requests {
-		f := f
-		go func(f chan event) {
-			f <- event{
+	for _, c := range s.requests {
+		c := c
+		go func(c client) {
+			select {
+			case c.events <- event{
 				Type: eventType,
 				Data: data,
+			}:
+			case <-c.done:
 			}
-		}(f)
+		}(c)
 	}
 }
 
@@ -52,13 +62,14 @@ func (s *Handler) ServeHTTP(w http.ResponseWriter, r *http.Request) {
 	id := atomic.AddInt64(&s.counter, 1)
 	s.m.Lock()
 	events := make(chan event)
-	s.requests[id] = events
+	done := make(chan struct{})
+	s.requests[id] = client{events: events, done: done}
 	s.m.Unlock()
 	defer func() {
 		s.m.Lock()
 		defer s.m.Unlock()
 		delete(s.requests, id)
-		close(events)
+		close(done)
 	}()
 
 	timer := time.NewTimer(0)
